@@ -81,7 +81,7 @@ def events(seed, full=True):
     ev.append(('extend_items', 'second-duplicate', (L[1], 'EXISTING')))
     ev.append(('extend_items', 'second-wrong-length', (L[2], L[1])))
     # --- derivations
-    for d in ('to_frame', 'to_frame_go', 'iloc[:, :]', 'getitem[first]', 'relabel', 'rename', 'sort_columns', 'reindex', 'mul', 'iter_series', 'transpose',
+    for d in ('drop.iloc[rows]', 'drop[first]', 'to_frame', 'to_frame_go', 'iloc[:, :]', 'getitem[first]', 'relabel', 'rename', 'sort_columns', 'reindex', 'mul', 'iter_series', 'transpose',
               'set_index', 'iter_group', 'columns-static', 'deepcopy-grow', 'to_frame_go-grow'):
         ev.append(('derive', d))
     # --- reads
@@ -89,7 +89,7 @@ def events(seed, full=True):
         ev.append(('read', r))
     if not full:
         # the quick tier keeps every growth call and fault, the derivations that can share state, and two reads
-        keep = {'to_frame', 'to_frame_go', 'iloc[:, :]', 'rename', 'relabel', 'sort_columns', 'columns-static', 'to_frame_go-grow', 'deepcopy-grow', 'values', 'columns.values'}
+        keep = {'drop.iloc[rows]', 'to_frame', 'to_frame_go', 'iloc[:, :]', 'rename', 'relabel', 'sort_columns', 'columns-static', 'to_frame_go-grow', 'deepcopy-grow', 'values', 'columns.values'}
         ev = [e for e in ev if e[0] not in ('derive', 'read') or e[1] in keep]
         ev = [e for e in ev if e not in (('set', L[2], 'frame'), ('set', L[2], 'array-2d'), ('extend', 'frame-empty', ()), ('set', L[2], 'list'))]
     return ev
@@ -274,7 +274,13 @@ def run_case(case, ctx):
             elif kind == 'derive':
                 name = ev[1]
                 try:
-                    if name == 'to_frame':
+                    if name == 'drop.iloc[rows]':
+                        d = f.drop.iloc[[0]]
+                    elif name == 'drop[first]':
+                        if len(model.labels) < 2:
+                            continue
+                        d = f.drop[[model.labels[0]]]
+                    elif name == 'to_frame':
                         d = f.to_frame()
                     elif name == 'to_frame_go':
                         d = f.to_frame_go()
@@ -362,6 +368,17 @@ def run_case(case, ctx):
             try:
                 if snap(d) != s0:
                     ctx.violation(f'isolation|derived-{name}-changed-after-source-grew', **info)
+                # every read route of a derived Frame still agrees (a shared column-to-block map would break positional routes only)
+                if isinstance(d, sf.Frame):
+                    cols_d = columns_of(d)
+                    arrs = list(d.iter_array(axis=0))
+                    if d.shape[1] != len(cols_d) or len(arrs) != len(cols_d) or len(d.columns) != len(cols_d):
+                        ctx.violation(f'isolation|derived-{name}-labels-and-data-out-of-step', **info, shape=d.shape, blocks=len(cols_d), labels=len(d.columns))
+                    else:
+                        for j, c in enumerate(cols_d):
+                            if not all(veq(x, y) for x, y in zip(d.iloc[:, j].values, c)) or not all(veq(x, y) for x, y in zip(arrs[j], c)):
+                                ctx.violation(f'isolation|derived-{name}-read-routes-disagree', **info, column=j)
+                                break
                 # labels the source acquired later must be unknown to what was derived before (membership is not part of the snapshot)
                 dcols = d if isinstance(d, IndexBase) else getattr(d, 'columns', None)
                 if dcols is not None and name not in ('transpose', 'deepcopy-grow', 'to_frame_go-grow'):
